@@ -121,6 +121,11 @@ CONFIGS = {
         "msgDelegate", "msgUndelegate", "msgRedelegate", "msgClaim", "msgUpdateAlliance"}),
  "SS": ("(w.supply, w.staking.bondDenom)", "ssframe",
        {"mintCoin", "burnCoin", "completeUnbondings", "rebalanceBondTokenWeights", "rebalanceHook", "endBlocker"}),
+ "Dels": ("w.dels", "dframe",
+       {"setDelegation", "deleteDelegation", "claimDelegationRewards", "settleBeforeDeposit", "upsertDelegationWithNewTokens",
+        "reduceDelegationShares", "clearDustShares", "clearDustDelegation", "delegate", "undelegate", "redelegate",
+        "slashRedelegations", "slashValidator", "beforeValidatorSlashed",
+        "msgDelegate", "msgUndelegate", "msgRedelegate", "msgClaim"}),
  "Staking": ("(w.staking, w.time, w.height)", "sframe",
              {"setSVal", "stakingDelegate", "stakingUnbond", "rebalanceBondTokenWeights", "rebalanceHook", "endBlocker"}),
  "Redel": ("(w.redels, w.redelQueue, w.redelIndex)", "rframe",
